@@ -42,7 +42,7 @@ def units(tier, seed):
         for minimize in (False, True):
             us.append({"kind": "topk", "n": n, "minimize": minimize})
     for weights in ([1, 1, 2], [1, 0, 3], [5, 5, 90], [1, 3, 0], [2, 1, 1]):
-        for size in (3, 4, 5):
+        for size in (3, 4, 5) + ((12, 15) if weights == [5, 5, 90] else ()):
             for minimize in (False, True):
                 us.append({"kind": "gp", "weights": weights, "size": size, "minimize": minimize,
                            "max_dev": 2 if tier == "quick" else 3, "max_execs": 400 if tier == "quick" else 8000})
@@ -69,6 +69,11 @@ def run_topk(unit) -> UnitResult:
                         if dup:
                             inds[-1] = inds[0]
                         ev = SequentialEvaluator()
+                        # half of the cases: the individuals already carry a fitness for ANOTHER problem (opposite
+                        # ranking), stored before the one elitism is asked about
+                        other = SingleObjectiveProblem(lambda p: float(p.v), minimize=not minimize)
+                        if (k + n + len(form)) % 2 == 0:
+                            SequentialEvaluator().evaluate(other, inds)
                         if pre_eval:
                             ev.evaluate(problem, inds)
                         pop = inds if form == "list" else iter(inds)
@@ -171,6 +176,15 @@ def run_gp(unit) -> UnitResult:
         elit = {g for g, t in targets if t >= 1}
         r.count("gp_runs")
         w = {"unit": unit, "choices": list(ex.choices)}
+        # independent reference: the elitism share of the population; strictly more than half an individual must
+        # round to at least one slot in every generation
+        share = unit["weights"][0] * size / sum(unit["weights"])
+        if share > 0.5:
+            produced = sorted(k for k in gens if k is not None and k >= 1)
+            lost = [g for g in produced if g not in elit]
+            if lost:
+                r.add_violation(Violation(PROP, "GeneticProgramming.search", "elite-slot-rounded-to-zero", {}, w,
+                                          f"weights {unit['weights']} population {size}: elitism's share is {share:.2f} individuals but it got no slot in generation {lost[0]}"))
         prev = None
         for g in sorted(k for k in gens if k is not None):
             best = (min if minimize else max)(gens[g])
